@@ -83,7 +83,9 @@ def showVal : Val → Option String
   | .entry a => some s!"me:{a}"
   | .entries n first =>
     let shown := (List.range (min n 3)).map fun i => s!"{entryAddr first i}"
-    some s!"entries:{n}:{if shown.isEmpty then "-" else ",".intercalate shown}"
+    -- the harness walks tables of 4 .. 2^16 entries to their last entry
+    let last := if 3 < n && n ≤ 65536 then s!"{entryAddr first (n - 1)}" else "-"
+    some s!"entries:{n}:{if shown.isEmpty then "-" else ",".intercalate shown}:{last}"
 
 def showRes : R Val → Option String
   | .ok v => (showVal v).map ("ok " ++ ·)
